@@ -14,6 +14,7 @@ from __future__ import annotations
 from typing import Iterator, List, overload, Optional
 from typing_extensions import Literal
 
+from spil import conf
 from spil.sid.sid import Sid
 from spil.sid.read.util import first
 from spil.sid.read.tools import unfold_search
@@ -79,7 +80,8 @@ class Finder:
         """
         # shortcut if Sid is not a search
         sid = Sid(search_sid)
-        if sid and not sid.is_search():
+        # (a last value that is an extension alias, eg. "maya", still needs unfolding)
+        if sid and not sid.is_search() and sid.get(sid.keytype) not in conf.extension_alias:
             generator = self.do_find([sid], as_sid=as_sid)
         else:
             search_sids = unfold_search(search_sid)
